@@ -160,12 +160,26 @@ class FacadeAdapter(BaseAdapter):
 
     # ------------------------------------------------------------------ the HTTP exchange
     def send(self, request, **kwargs):
+        body = request.body if isinstance(request.body, bytes) else request.body.encode('utf-8')
+        data = self.handle(body, dict(request.headers))
+        r = requests.Response()
+        r.status_code = 200
+        r.headers['Content-Type'] = 'application/xml; charset="utf-8"'
+        r.headers['CIMOperation'] = 'MethodResponse'
+        r._content = data
+        r.url = request.url
+        r.request = request
+        r.reason = 'OK'
+        r.encoding = 'utf-8'
+        return r
+
+    def handle(self, body, headers):
+        """request bytes -> response bytes (one record appended to self.log); transport independent"""
         import pywbem
         from pywbem import _cim_xml
         from pywbem._tupletree import xml_to_tupletree_sax
         from pywbem._tupleparse import TupleParser
-        body = request.body if isinstance(request.body, bytes) else request.body.encode('utf-8')
-        rec = {'body': body, 'headers': dict(request.headers), 'stage': 'parse'}
+        rec = {'body': body, 'headers': headers, 'stage': 'parse'}
         self.log.append(rec)
         tt = xml_to_tupletree_sax(body, 'facade request')
         rec['tt'] = tt
@@ -229,16 +243,7 @@ class FacadeAdapter(BaseAdapter):
             rsp = (_cim_xml.IMETHODRESPONSE if kind == 'IMETHODCALL' else _cim_xml.METHODRESPONSE)(op, err)
         data = self._wrap(msgid, rsp)
         rec['response'] = data
-        r = requests.Response()
-        r.status_code = 200
-        r.headers['Content-Type'] = 'application/xml; charset="utf-8"'
-        r.headers['CIMOperation'] = 'MethodResponse'
-        r._content = data
-        r.url = request.url
-        r.request = request
-        r.reason = 'OK'
-        r.encoding = 'utf-8'
-        return r
+        return data
 
 
 def make_client(fake, default_namespace=None, **kw):
@@ -250,3 +255,99 @@ def make_client(fake, default_namespace=None, **kw):
     conn.session.mount('http://', ad)
     conn.session.mount('https://', ad)
     return conn, ad
+
+
+# ----------------------------------------------------------------------------- the same server behind a real socket
+
+class HttpFacade:
+    """the facade behind a real loopback HTTP server (http.server on 127.0.0.1, free port above 52000), so that the
+    whole client stack incl. urllib3 connection handling and retry logic runs.  `fault` = {request index: mode}:
+    after EXECUTING that request the server closes the connection without replying ('drop') or after half of the
+    response body ('truncate') - the reply is lost although the operation took effect."""
+
+    def __init__(self, fake, fault=None):
+        import random
+        import threading
+        from http.server import BaseHTTPRequestHandler, ThreadingHTTPServer
+        self.fault = dict(fault or {})
+        self.nreq = 0
+        self.lock = threading.Lock()
+        outer = self
+
+        class Handler(BaseHTTPRequestHandler):
+            protocol_version = 'HTTP/1.1'
+            timeout = 10
+
+            def log_message(self, *a):   # silence
+                pass
+
+            def do_POST(self):
+                n = int(self.headers.get('Content-Length', '0'))
+                body = self.rfile.read(n)
+                with outer.lock:
+                    idx = outer.nreq
+                    outer.nreq += 1
+                    try:
+                        data = outer.core.handle(body, dict(self.headers))
+                    except Exception:  # noqa: the server failed to parse / execute: no reply (as a crashed server)
+                        outer.core.log[-1]['server_exception'] = True
+                        self.close_connection = True
+                        return
+                    outer.core.log[-1]['index'] = idx
+                mode = outer.fault.get(idx)
+                if mode == 'drop':
+                    outer.core.log[-1]['fault'] = mode
+                    self.close_connection = True
+                    try:
+                        self.connection.shutdown(2)
+                    except OSError:
+                        pass
+                    return
+                self.send_response(200)
+                self.send_header('Content-Type', 'application/xml; charset="utf-8"')
+                self.send_header('CIMOperation', 'MethodResponse')
+                self.send_header('Content-Length', str(len(data)))
+                self.end_headers()
+                if mode == 'truncate':
+                    outer.core.log[-1]['fault'] = mode
+                    self.wfile.write(data[:len(data) // 2])
+                    self.wfile.flush()
+                    self.close_connection = True
+                    try:
+                        self.connection.shutdown(2)
+                    except OSError:
+                        pass
+                    return
+                self.wfile.write(data)
+
+        rng = random.Random()
+        for _ in range(200):
+            port = rng.randrange(52001, 60999)
+            try:
+                self.httpd = ThreadingHTTPServer(('127.0.0.1', port), Handler)
+                break
+            except OSError:
+                continue
+        else:
+            raise OSError('no free port')
+        self.httpd.daemon_threads = True
+        self.port = port
+        self.host = '127.0.0.1:%d' % port
+        self.core = FacadeAdapter(fake, host_for_paths=self.host)
+        self.thread = threading.Thread(target=self.httpd.serve_forever, kwargs={'poll_interval': 0.05}, daemon=True)
+        self.thread.start()
+
+    @property
+    def log(self):
+        return self.core.log
+
+    def client(self, default_namespace=None, timeout=5):
+        import pywbem
+        conn = pywbem.WBEMConnection('http://' + self.host, default_namespace=default_namespace,
+                                     use_pull_operations=False, timeout=timeout)
+        conn.session.trust_env = False
+        return conn
+
+    def close(self):
+        self.httpd.shutdown()
+        self.httpd.server_close()
